@@ -494,7 +494,7 @@ func main() {
 	run.Floor("refused_403_localhost", 20)
 	run.Floor("refused_403_denied", 20)
 	run.Floor("refused_451", 20)
-	run.Floor("inner_mitm_requests", 3)
+	run.Floor("inner_mitm_requests", 25)
 	run.Finish()
 }
 
@@ -536,6 +536,14 @@ func runConf(run *lib.Run, r *lib.RNG, c *conf, base, nReq int) {
 			}
 		}
 		q := c.genReq(r, fmt.Sprintf("k%dq%d", c.idx, k), useInner)
+		if c.mitm && inner == nil && r.Chance(1, 3) {
+			// open a tunnel that the proxy intercepts, so that later requests of this
+			// connection travel inside it (the controls apply to them as well)
+			q.method, q.host, q.class, q.port, q.abs, q.proto, q.body = "CONNECT", "origin-a.test", "ok", "443", false, "HTTP/1.1", nil
+			if c.auth {
+				q.cred = credCase{name: "right", header: []string{"Basic " + b64(c.user+":"+c.pass)}, ok: true}
+			}
+		}
 		scheme := "http"
 		if useInner {
 			scheme = "https"
